@@ -1,6 +1,7 @@
 // Native replay for C02: the real mp::ReadNLString on the bytes of a file (held in an exactly sized heap buffer plus
 // the terminating NUL the reader requires) with a null handler.  Build with
 // -fsanitize=address,undefined,float-cast-overflow -fno-sanitize-recover=all: a memory error or UB aborts.
+// The handler checks the index ranges of the simple notifications against the header it received first (exit 10).
 // usage: c02_replay <file.nl> [flags]
 #include <cstdio>
 #include <cstdlib>
@@ -8,16 +9,32 @@
 #include <vector>
 #include "mp/nl-reader.h"
 
+// a handler that checks what it is told against the header it was given first (index ranges of the simple notifications)
+struct Checking : mp::NullNLHandler<int> {
+  mp::NLHeader h; int bad = 0;
+  void in(const char *what, long i, long n) { if (i < 0 || i >= n) { ++bad; printf("VIOLATED: %s index %ld is outside the declared range [0, %ld)\n", what, i, n); } }
+  void OnHeader(const mp::NLHeader &x) { h = x; }
+  void OnVarBounds(int i, double, double) { in("OnVarBounds variable", i, h.num_vars); }
+  void OnConBounds(int i, double, double) { in("OnConBounds constraint", i, h.num_algebraic_cons); }
+  void OnComplementarity(int c, int v, mp::ComplInfo) { in("OnComplementarity constraint", c, h.num_algebraic_cons); in("OnComplementarity variable", v, h.num_vars); }
+  void OnInitialValue(int v, double) { in("OnInitialValue variable", v, h.num_vars); }
+  void OnInitialDualValue(int c, double) { in("OnInitialDualValue constraint", c, h.num_algebraic_cons); }
+};
+
 int main(int argc, char **argv) {
   if (argc < 2) return 2;
   FILE *f = fopen(argv[1], "rb"); if (!f) return 2;
   std::vector<char> data; int c; while ((c = fgetc(f)) != EOF) data.push_back((char)c); fclose(f);
   size_t n = data.size();
   char *buf = (char *)malloc(n + 1); for (size_t i = 0; i < n; ++i) buf[i] = data[i]; buf[n] = 0;
-  mp::NullNLHandler<int> h;
+  Checking h;
   try { mp::ReadNLString(mp::NLStringRef(buf, n), h, "(replay)", argc > 2 ? atoi(argv[2]) : 0); printf("read completed\n"); }
   catch (const mp::Error &e) { printf("read error: %s\n", e.what()); }
   catch (const std::exception &e) { printf("exception: %s\n", e.what()); }
   free(buf);
-  return 0;
+  // the same file through the file reader (mmap path, or the copy path when the size is a multiple of the page size)
+  Checking h2;
+  try { mp::ReadNLFile(argv[1], h2, argc > 2 ? atoi(argv[2]) : 0); printf("file read completed\n"); }
+  catch (const std::exception &e) { printf("file read: %s\n", e.what()); }
+  return (h.bad || h2.bad) ? 10 : 0;
 }
